@@ -1,4 +1,5 @@
 import Aurora.Lemmas.Depth
+import Aurora.Model.Kad
 /-!
 # C22 — Neighbourhood depth is consistent with the peer set
 
@@ -66,6 +67,77 @@ theorem C22_thresholds (binMax : Nat) :
     show 0 < _ / 5
     split <;> split <;> omega
   · exact ⟨hn, hq⟩
+
+/-! ### histories: the stored depth is always the depth of the current set -/
+
+/-- the stored depth is `recalcDepth` of the current connected set, reachability and radius -/
+def DepthCurrent (k : Kad) : Prop := k.depth = recalcDepth k.params (k.flags k.connected) k.radius
+
+/-- every event handler of the Kad model (Model/Kad.lean: `AddPeers`, `Connected` in all its
+branches, `Outbound`, `Disconnected`, `DisconnectForce`, `RefreshProtectPeer`, `Reachable` — for
+every status, this is the second `fix:` commit —, `UpdateReachability`, `SetRadius`) leaves the
+stored depth equal to `recalcDepth` of the *current* peer set, reachability and radius -/
+theorem C22_depth_current_step (k : Kad) (ev : Ev) (h : DepthCurrent k) : DepthCurrent (k.apply ev).1 := by
+  have hr : ∀ k' : Kad, DepthCurrent k'.recalc := fun _ => rfl
+  cases ev with
+  | add as => exact h
+  | conn a f kick =>
+    simp only [Kad.apply]
+    unfold Kad.connectedEv
+    simp only []
+    split
+    · split
+      · split
+        · exact h
+        · split
+          · split
+            · exact hr _
+            · exact h
+          · exact h
+      · split
+        · exact h
+        · exact hr _
+    · exact hr _
+  | out a b =>
+    cases b with
+    | true => exact h
+    | false => exact hr _
+  | disc a => exact hr _
+  | force a => exact hr _
+  | protect as => exact h
+  | reach a s => exact hr _
+  | self s =>
+    simp only [Kad.apply]; unfold Kad.updateReachability; split
+    · exact h
+    · exact h
+  | radius r =>
+    simp only [Kad.apply]; unfold Kad.setRadius; split
+    · exact h
+    · exact hr _
+
+/-- a fresh Kad has depth 0 = `recalcDepth` of the empty set -/
+theorem C22_depth_current_new (base : Addr) (binMax : Nat) (boot : Bool) (static : List Addr) :
+    DepthCurrent (Kad.new base binMax boot static) := by
+  have hz : ∀ k : Kad, binsLength (k.flags PSlice.new) = 0 := by
+    intro k; simp [Kad.flags, PSlice.new, binsLength]
+  unfold DepthCurrent
+  show 0 = recalcDepth _ (Kad.flags _ PSlice.new) _
+  unfold recalcDepth
+  rw [hz]; simp
+
+/-- clause "… not on the order of connections", history form: after *any* event history from a
+fresh Kad, `NeighborhoodDepth()` is `recalcDepth` of the current connected set, reachability and
+radius — so all clauses above hold for it, and two histories that end in the same set (whatever
+the order) end with the same depth. -/
+theorem C22_depth_current (base : Addr) (binMax : Nat) (boot : Bool) (static : List Addr) (evs : List Ev) :
+    DepthCurrent (evs.foldl (fun k ev => (k.apply ev).1) (Kad.new base binMax boot static)) := by
+  have gen : ∀ (evs : List Ev) (k : Kad), DepthCurrent k →
+      DepthCurrent (evs.foldl (fun k ev => (k.apply ev).1) k) := by
+    intro evs
+    induction evs with
+    | nil => intro k h; exact h
+    | cons ev evs ih => intro k h; exact ih _ (C22_depth_current_step k ev h)
+  exact gen evs _ (C22_depth_current_new base binMax boot static)
 
 /-! ### non-vacuity / regression examples (thresholds 3 / 4) -/
 
